@@ -762,6 +762,8 @@ class map_async(Stream):
         self.args = args
         self.stop_on_exception = stop_on_exception
         self.work_queue = asyncio.Queue(maxsize=parallelism)
+        # elements take their work slot in arrival order
+        self._insert_lock = asyncio.Lock()
 
         Stream.__init__(self, upstream, stream_name=stream_name, ensure_io_loop=True)
         self.work_task = None
@@ -830,10 +832,11 @@ class map_async(Stream):
 
     async def _insert_job(self, x, metadata):
         try:
-            await self._wait_for_work_slot()
-            coro = self.func(x, *self.args, **self.kwargs)
-            task = self._create_task(coro)
-            await self.work_queue.put((task, metadata))
+            async with self._insert_lock:
+                await self._wait_for_work_slot()
+                coro = self.func(x, *self.args, **self.kwargs)
+                task = self._create_task(coro)
+                await self.work_queue.put((task, metadata))
         except Exception as e:
             logger.exception(e)
             raise
